@@ -26,6 +26,8 @@ SCHEMA = {
     'FMFeatureAncestors': {'result': SEQ(REF('Feature')), 'feature': REF('Feature')},
     'FMEstimatedConfigurationsNumber': {'result': INT, 'feature_model': REF('FeatureModel')},
     'FMCoreFeatures': {'result': SEQ(REF('Feature'))},
+    'FMMetrics': {'model': REF('FeatureModel'), '_features': SEQ(REF('Feature')), '_feature_ancestors': SEQ(INT),
+                  '_constraints_per_features': SEQ(INT), '_leaf_features': SEQ(STR), 'filter': PYVAL},
 }
 
 
